@@ -55,8 +55,7 @@ def sensitive (env : XlVerif.Spec.C01.Env) : Expr → Bool
        let d := if a - b < 0 then b - a else a - b
        let m := (if a < 0 then -a else a) + (if b < 0 then -b else b) + 1
        decide (d * 1000000000 < m)
-     match XlVerif.Spec.C01.toNum (XlVerif.Spec.C01.denote env l),
-           XlVerif.Spec.C01.toNum (XlVerif.Spec.C01.denote env r) with
+     match XlVerif.Spec.C01.denote env l, XlVerif.Spec.C01.denote env r with
      | .num a, .num b =>
        (match o with
         | .div => !exr && close b 0
